@@ -98,6 +98,10 @@ class OnDiskStorage:
 
         array: t.Array[t.DTypeGeneric] = numpy.load(file)
 
+        # Strings are stored as unicode (object arrays would need pickle).
+        if array.dtype.kind == "U":
+            array = array.astype(object)
+
         return array
 
     def get(self, period: None | t.Period = None) -> None | t.Array[t.DTypeGeneric]:
@@ -172,6 +176,8 @@ class OnDiskStorage:
         if isinstance(value, EnumArray) and value.possible_values is not None:
             self._enums[self.storage_dir] = value.possible_values
             value = value.view(numpy.ndarray)
+        if value.dtype == object:
+            value = value.astype(str)
         numpy.save(path, value)
         self._files[period] = path
 
